@@ -191,3 +191,84 @@ def svd_tape_lit(calls):
         u, s, v = outs
         out.append([lib.mat_lit(ins[0]), len(s), lib.mat_lit(u), lib.flat_zi(s), lib.mat_lit(v)])
     return out
+
+
+# ------------------------------------------------------------------------------------------------------------------
+# Run-time monitoring of the oracle hypotheses (thorough tier): the REAL routines are wrapped, their answers are tested
+# against the specifications the theorems assume, and the counts go into the evidence notes.  A miss is not a violation
+# of scikit_tt; it says that on this platform the hypothesis of a theorem was not met for that call.
+# ------------------------------------------------------------------------------------------------------------------
+MONITOR = {}
+
+
+def _note(name, ok):
+    d = MONITOR.setdefault(name, {'calls': 0, 'misses': 0})
+    d['calls'] += 1
+    if not ok:
+        d['misses'] += 1
+
+
+def _nrm(x):
+    x = np.asarray(x)
+    return float(np.max(np.abs(x))) if x.size else 0.0
+
+
+def monitor_install():
+    if getattr(scipy.linalg.svd, '_verif_monitor', False):
+        return
+    real_svd, real_qr, real_rq, real_eigh = scipy.linalg.svd, scipy.linalg.qr, scipy.linalg.rq, scipy.linalg.eigh
+
+    def svd(a, *args, **kw):
+        a0 = np.array(a, copy=True)
+        out = real_svd(a, *args, **kw)
+        try:
+            if kw.get('compute_uv', True) and not kw.get('full_matrices', True) and np.all(np.isfinite(a0)):
+                u, s, v = out
+                tol = 1e-9 * (1 + _nrm(a0))
+                ok = (_nrm((u * s) @ v - a0) <= tol * max(a0.shape) and _nrm(u.conj().T @ u - np.eye(u.shape[1])) <= 1e-9
+                      and _nrm(v @ v.conj().T - np.eye(v.shape[0])) <= 1e-9 and bool(np.all(np.diff(s) <= 1e-12 * (1 + s[:1].sum()))) and bool(np.all(s >= 0)))
+                _note('svd: A = U S V, U^H U = I, V V^H = I, s decreasing', ok)
+        except Exception:
+            pass
+        return out
+
+    def qr(a, *args, **kw):
+        a0 = np.array(a, copy=True)
+        out = real_qr(a, *args, **kw)
+        try:
+            if kw.get('mode') == 'economic' and not kw.get('pivoting', False) and np.all(np.isfinite(a0)):
+                q, r = out
+                ok = _nrm(q @ r - a0) <= 1e-9 * (1 + _nrm(a0)) * max(a0.shape) and _nrm(q.conj().T @ q - np.eye(q.shape[1])) <= 1e-9
+                _note('qr: A = Q R, Q^H Q = I', ok)
+        except Exception:
+            pass
+        return out
+
+    def rq(a, *args, **kw):
+        a0 = np.array(a, copy=True)
+        out = real_rq(a, *args, **kw)
+        try:
+            if kw.get('mode') == 'economic' and np.all(np.isfinite(a0)):
+                r, q = out
+                ok = _nrm(r @ q - a0) <= 1e-9 * (1 + _nrm(a0)) * max(a0.shape) and _nrm(q @ q.conj().T - np.eye(q.shape[0])) <= 1e-9
+                _note('rq: A = R Q, Q Q^H = I', ok)
+        except Exception:
+            pass
+        return out
+
+    def eigh(a, b=None, *args, **kw):
+        a0 = np.array(a, copy=True)
+        b0 = None if b is None else np.array(b, copy=True)
+        out = real_eigh(a, b, *args, **kw)
+        try:
+            if not kw.get('eigvals_only', False) and np.all(np.isfinite(a0)):
+                w, v = out
+                rhs = v * w if b0 is None else (b0 @ v) * w
+                _note('eigh: A V = B V diag(w)', _nrm(a0 @ v - rhs) <= 1e-7 * (1 + _nrm(a0)) * (1 + _nrm(v)) * a0.shape[0])
+        except Exception:
+            pass
+        return out
+
+    for f in (svd, qr, rq, eigh):
+        f._verif_monitor = True
+    scipy.linalg.svd, scipy.linalg.qr, scipy.linalg.rq, scipy.linalg.eigh = svd, qr, rq, eigh
